@@ -239,6 +239,12 @@ func densePacket(t byte, kind string, a []int) *spec.Packet {
 			return nil
 		}
 		return gen.WithSiteLen(p, a[3], a[4])
+	case "content": // site, content index, reason code
+		p := gen.WithSiteContent(denseBase(t, 0), a[0], gen.SpecialContents[a[1]])
+		if p != nil {
+			p.Reason = byte(a[2])
+		}
+		return p
 	case "subid": // base, value, mode (0 single, 1 followed by another identifier)
 		p := denseBase(t, a[0])
 		var props []spec.Prop
@@ -284,6 +290,9 @@ func describeDense(t byte, kind string, a []int) string {
 	case "pair":
 		ss := gen.Sites(denseBase(t, a[0]))
 		return fmt.Sprintf("%s %s with %s of %d bytes and %s of %d bytes", name, bases[a[0]], ss[a[1]].Name, a[2], ss[a[3]].Name, a[4])
+	case "content":
+		ss := gen.Sites(denseBase(t, 0))
+		return fmt.Sprintf("%s rich with %s = %q and reason code %#02x", name, ss[a[0]].Name, gen.SpecialContents[a[1]], a[2])
 	case "subid":
 		return fmt.Sprintf("%s %s with subscription identifier %d (mode %d)", name, bases[a[0]], a[1], a[2])
 	case "filter":
@@ -343,6 +352,26 @@ func enumDense(x *core.Ctx, types []byte, odd bool, fn func(c *pcase)) {
 								return
 							}
 						}
+					}
+				}
+			}
+		}
+		// special short contents in every field; for the types that carry a
+		// reason code together with each of its 256 values (renderers and
+		// validators branch on the code and then look at a field)
+		{
+			hasReason := t == 2 || (t >= 4 && t <= 7) || t == 14 || t == 15
+			ns := len(gen.Sites(denseBase(t, 0)))
+			for si := 0; si < ns; si++ {
+				for ci := range gen.SpecialContents {
+					if hasReason {
+						for rc := 0; rc < 256; rc++ {
+							if !emit("S5.dense.content", t, "content", si, ci, rc) {
+								return
+							}
+						}
+					} else if !emit("S5.dense.content", t, "content", si, ci, int(denseBase(t, 0).Reason)) {
+						return
 					}
 				}
 			}
